@@ -794,6 +794,76 @@ impl St {
                 let a = &self.regs[l[1].idx()];
                 S::tag("ok", vec![S::a(a.verif_raw_id()), S::a(MarkerTree::verif_arena_len())])
             }
+            "hammer" => {
+                // (hammer nthreads iters timeout_ms (texts...)) : the main thread computes and/or/and-not of neighbouring markers once; then every
+                // thread repeats the same operations `iters` times over all pairs (starting at different offsets) and counts results that differ
+                let n = l[1].idx();
+                let iters = l[2].idx();
+                let timeout = l[3].num();
+                let trees: Vec<MarkerTree> = l[4].list().iter().filter_map(|t| MarkerTree::from_str(&t.string()).ok()).collect();
+                let k = trees.len();
+                let mut expected: Vec<(MarkerTree, MarkerTree)> = Vec::new();
+                for j in 0..k {
+                    let mut x = trees[j].clone();
+                    x.and(trees[(j + 1) % k].clone());
+                    let mut y = trees[j].clone();
+                    y.or(trees[(j + 2) % k].clone());
+                    expected.push((x, y));
+                }
+                let trees = std::sync::Arc::new(trees);
+                let expected = std::sync::Arc::new(expected);
+                let (tx, rx) = std::sync::mpsc::channel();
+                let barrier = std::sync::Arc::new(std::sync::Barrier::new(n));
+                for t in 0..n {
+                    let tx = tx.clone();
+                    let trees = trees.clone();
+                    let expected = expected.clone();
+                    let barrier = barrier.clone();
+                    std::thread::spawn(move || {
+                        let r = catch_unwind(AssertUnwindSafe(|| {
+                            barrier.wait();
+                            let mut bad = 0usize;
+                            let mut first: Option<(usize, String)> = None;
+                            for it in 0..iters {
+                                let j = (it + t * 3) % k;
+                                let mut x = trees[j].clone();
+                                x.and(trees[(j + 1) % k].clone());
+                                let mut y = trees[j].clone();
+                                y.or(trees[(j + 2) % k].clone());
+                                if x != expected[j].0 || y != expected[j].1 {
+                                    bad += 1;
+                                    if first.is_none() {
+                                        first = Some((j, format!("{:?} / {:?}", x.try_to_string(), y.try_to_string())));
+                                    }
+                                }
+                            }
+                            (bad, first)
+                        }));
+                        let _ = tx.send(r.ok());
+                    });
+                }
+                drop(tx);
+                let deadline = std::time::Instant::now() + std::time::Duration::from_millis(timeout);
+                let mut got = 0;
+                let mut bad = 0;
+                let mut panicked = 0;
+                let mut first: Option<(usize, String)> = None;
+                while got < n {
+                    let left = deadline.saturating_duration_since(std::time::Instant::now());
+                    match rx.recv_timeout(left) {
+                        Ok(Some((b, f))) => { bad += b; if first.is_none() { first = f; } got += 1; }
+                        Ok(None) => { panicked += 1; got += 1; }
+                        Err(_) => break,
+                    }
+                }
+                if got < n {
+                    return S::tag("deadlock", vec![S::a(got)]);
+                }
+                if panicked > 0 {
+                    return S::tag("panicked", vec![S::a(panicked)]);
+                }
+                S::tag("ok", vec![S::a(bad), S::a(n * iters), match first { Some((j, t)) => S::l(vec![S::a(j), S::str(&t)]), None => S::a("none") }])
+            }
             "stress" => {
                 // (stress nthreads timeout_ms (texts...)) : every thread parses all texts (rotated), combines neighbours,
                 // renders, evaluates; returns per-thread observation lists
